@@ -71,6 +71,19 @@ theorem bit_codec_source : bitCodecStmts = [
   "RegisteredDelivery.WriteByte: r.Reserved = c >> 5 & 0b111",
   "RegisteredDelivery.WriteByte: return nil"] := by decide +kernel
 
+/-- the encoders' size guards (what makes an unrepresentable value an error) -/
+theorem encoder_guards :
+    pduGuards.filter (fun g => g.startsWith "pdu/address.go" || g.startsWith "pdu/tag.go Tags.WriteTo"
+        || g.startsWith "pdu/udh.go UserDataHeader.WriteTo" || g.startsWith "pdu/message.go ShortMessage.WriteTo") = [
+      "pdu/message.go ShortMessage.WriteTo: len(p.Message) > MaxShortMessageLength",
+      "pdu/message.go ShortMessage.WriteTo: len(data)-1-start > 0xFF",
+      "pdu/udh.go UserDataHeader.WriteTo: len(data) > 0xFF",
+      "pdu/udh.go UserDataHeader.WriteTo: len(data)-1 > 0xFF",
+      "pdu/tag.go Tags.WriteTo: length < 0xFFFF",
+      "pdu/address.go Address.String: len(p.No) > 0",
+      "pdu/address.go DestinationAddresses.WriteTo: length > 0xFF",
+      "pdu/address.go UnsuccessfulRecords.WriteTo: len(p) > 0xFF"] := by decide +kernel
+
 /-! ## octets -/
 
 theorem be32_ofNat {n : Nat} (h : n < 4294967296) : be32 (UInt32.ofNat n) = Spec.int4 n := by
